@@ -5956,7 +5956,7 @@ func (a *Agent) TaskDispatch(RequestID uint32, CommandID uint32, Parser *parser.
 								var SocketConn net.Conn
 								if Socket := a.SocksClientGet(SocktID); Socket != nil {
 									/* the relay reader may close the client (and clear Conn) at any time */
-									SocketConn = Socket.Conn
+									SocketConn = a.socksClientConn(Socket)
 								}
 
 								if SocketConn != nil {
@@ -6058,7 +6058,14 @@ func (a *Agent) TaskDispatch(RequestID uint32, CommandID uint32, Parser *parser.
 						ErrorCode = Parser.ParseInt32()
 					)
 
-					if Client := a.SocksClientGet(SocketId); Client != nil {
+					var ClientConn net.Conn
+					Client := a.SocksClientGet(SocketId)
+					if Client != nil {
+						/* closed by somebody else in the meantime? then it is as good as not found */
+						ClientConn = a.socksClientConn(Client)
+					}
+
+					if Client != nil && ClientConn != nil {
 
 						if Success == win32.TRUE {
 							// succeeded
@@ -6066,7 +6073,7 @@ func (a *Agent) TaskDispatch(RequestID uint32, CommandID uint32, Parser *parser.
 							// avoid too much spam
 							//logger.Debug(fmt.Sprintf("Agent: %x, Command: COMMAND_SOCKET - SOCKET_COMMAND_CONNECT, Id: %08x, Type: %d, Success: %d", AgentID, SocketId, SOCKET_TYPE_REVERSE_PROXY, Success))
 
-							err := socks.SendConnectSuccess(Client.Conn, Client.ATYP, Client.IpDomain, Client.Port)
+							err := socks.SendConnectSuccess(ClientConn, Client.ATYP, Client.IpDomain, Client.Port)
 							if err == nil {
 								Client.Connected = true
 							}
@@ -6074,7 +6081,7 @@ func (a *Agent) TaskDispatch(RequestID uint32, CommandID uint32, Parser *parser.
 						} else {
 							logger.Debug(fmt.Sprintf("Agent: %x, Command: COMMAND_SOCKET - SOCKET_COMMAND_CONNECT, Id: %08x, Type: %d, Success: %d, ErrorCode: %d", AgentID, SocketId, SOCKET_TYPE_REVERSE_PROXY, Success, ErrorCode))
 
-							socks.SendConnectFailure(Client.Conn, uint32(ErrorCode), Client.ATYP, Client.IpDomain, Client.Port)
+							socks.SendConnectFailure(ClientConn, uint32(ErrorCode), Client.ATYP, Client.IpDomain, Client.Port)
 
 							a.SocksClientClose(int32(SocketId))
 						}
